@@ -576,7 +576,7 @@ func (fr *frame) concretizeLen(v value, what string) int64 {
 		if px.forkBool(huge) {
 			return maxAlloc + 1
 		}
-		px.abort("unsupported", "symbolic length above engine cap %d (%s)", capN, what)
+		px.abort("lencap", "symbolic length above the harness cap %d (%s)", capN, what)
 	}
 	return fr.concretize(s, 0, capN)
 }
